@@ -12,12 +12,12 @@ def unit(name, entries, override, quick, thorough):
         validate=entries[:1] if name != 'compress' else ['vectors'],
     )
 UNITS = [
-    unit('stream', ['streaming', 'hmac'], True, {'VF_ALLLENS': 0, 'VF_MAXLEN': 70, 'VF_HMACKEY': 70, 'VF_HMACMSG': 3}, {'VF_ALLLENS': 1, 'VF_MAXLEN': 130, 'VF_HMACKEY': 70, 'VF_HMACMSG': 70}),
+    unit('stream', ['streaming', 'hmac'], True, {'VF_ALLLENS': 0, 'VF_MAXLEN': 70, 'VF_HMACKEY': 70, 'VF_HMACMSG': 3}, {'VF_ALLLENS': 1, 'VF_MAXLEN': 130, 'VF_HMACKEY': 200, 'VF_HMACMSG': 70}),
     unit('compress', ['transform', 'lemmas', 'vectors'], False, {'VF_ALLLENS': 0, 'VF_MAXLEN': 70, 'VF_HMACKEY': 70, 'VF_HMACMSG': 3}, {'VF_ALLLENS': 0, 'VF_MAXLEN': 70, 'VF_HMACKEY': 70, 'VF_HMACMSG': 3}),
 ]
 BOUNDS = {
     'quick': 'streaming layer exact for arbitrary content: 24 message lengths around every padding boundary (0..3, 31..33, 54..57, 62..66, 118..121, 127..130), every 2- and 3-way chunking of each, reuse after finalize and after reset, hash(); HMAC for key lengths {0,1,31,32,33,63,64,65,66,70} x message lengths 0..3; compression function: all 768 input bits symbolic against a FIPS 180-4 reference',
-    'thorough': 'every message length 0..130 with every 2- and 3-way chunking; HMAC message lengths 0..70',
+    'thorough': 'every message length 0..130 with every 2- and 3-way chunking; HMAC key lengths additionally {119,120,127,128,129,200}, message lengths 0..70',
 }
 OUTSIDE = 'messages longer than 130 bytes (count arithmetic is 64-bit and uniform beyond the second block), key lengths other than the listed classes'
 ASSUMPTIONS = ['unit stream: Sha256::Private::Transform is replaced at IR level by an uninterpreted function F(state, block) (the same F is folded by the FIPS-padding reference), so equality is exact for every content and independent of the compression function',
